@@ -28,12 +28,13 @@ CONSTANTS KeyCfgs,    \* set of [alg, cs, cm, ss, sm]: signing_len / min_mac_len
           ClockCfgs,  \* set of <<skew of the server clock, drift of the client clock at answer time>>
           MaxAns,     \* answers in a sequence
           Bursts,     \* sizes of unsigned bursts the RFC responder may send
-          FaultsOn    \* BOOLEAN: adversary enabled
+          FaultsOn,   \* BOOLEAN: adversary enabled
+          Retries,    \* how often the client may compose (sign) the request again before it is answered
+          T0          \* the client's clock (SymTime for the behaviours run through the wrappers)
 
 VARIABLES cfg, pc, net, pre, fault, cli, srv, rfc, macs, nans, g, hist, outs
 vars == <<cfg, pc, net, pre, fault, cli, srv, rfc, macs, nans, g, hist, outs>>
 
-T0 == 1000000
 Fudge == 300
 ReqId == 4660                                    \* 0x1234
 KeyNameC == <<4, 84, 115, 73, 103, 3, 75, 101, 121, 0>>     \* "TsIg.Key." (client's spelling)
@@ -101,7 +102,7 @@ Init ==
   /\ macs = <<>> /\ nans = 0
   /\ g = [req |-> Msg(0, 0, 0, 1), reqv |-> Msg(0, 0, 0, 1), err |-> "", etime |-> 0, efudge |-> 0,
           smac |-> <<>>, expect |-> {"Ok"}, got |-> "Ok", restored |-> TRUE, layout |-> TRUE,
-          rejected |-> FALSE, run |-> 0]
+          rejected |-> FALSE, run |-> 0, composed |-> 1]
   /\ hist = <<>> /\ outs = <<>>
 
 Log(op, out) == hist' = Append(hist, op) /\ outs' = Append(outs, out)
@@ -120,6 +121,23 @@ ClientRequest ==
                [res |-> "Ok", mac |-> r.j, n |-> Len(r.mac)])
   /\ pc' = "net1"
   /\ UNCHANGED <<cfg, fault, srv, rfc, nans>>
+
+\* The request is composed and signed again before any answer arrived (what a
+\* datagram transport does on a timeout: new message ID).  The new transaction
+\* replaces the pending one: answers are verified against the latest request.
+ClientRecompose ==
+  /\ pc = "net1" /\ fault = "none" /\ g.composed <= Retries
+  /\ LET m == Msg(ReqId + g.composed, 0, 0, cfg.reqb)
+         r == ClientRequestStep(CKey, m, T0, Fudge, macs, NewFull)
+     IN /\ macs' = r.tbl
+        /\ cli' = [ctx |-> r.ctx, first |-> TRUE, unsigned |-> 0]
+        /\ net' = <<[msg |-> r.msg, rep |-> 1]>>
+        /\ pre' = m
+        /\ g' = [g EXCEPT !.layout = @ /\ r.data = DigestReq(CKey.name, AlgWire(CKey.alg), r.msg),
+                          !.composed = @ + 1]
+        /\ Log([op |-> "c_request", b |-> cfg.reqb, id |-> ReqId + g.composed, now |-> T0, fudge |-> Fudge],
+               [res |-> "Ok", mac |-> r.j, n |-> Len(r.mac)])
+  /\ UNCHANGED <<cfg, pc, fault, srv, rfc, nans>>
 
 --------------------------------------------------------------------------
 (* The adversary: one action on the signed message in flight *)
@@ -323,7 +341,7 @@ ClientDone ==
   /\ pc' = "done"
   /\ UNCHANGED <<cfg, net, pre, cli, srv, rfc, macs, nans>>
 
-Next == ClientRequest \/ Adversary \/ ServerRequest \/ ServerErrorResponse \/ ServerAnswer
+Next == ClientRequest \/ ClientRecompose \/ Adversary \/ ServerRequest \/ ServerErrorResponse \/ ServerAnswer
         \/ RfcAnswer \/ RfcUnsigned \/ ClientAnswer \/ ClientDone
 Spec == Init /\ [][Next]_vars
 
